@@ -76,6 +76,28 @@ def fresh_results(j):
     return None
 
 
+def reused_object(j, rng):
+    """ONE filter object printed, edited in place through its lists (still in the domain: lists only grow, shrink to >= 1 or are reordered),
+    printed again: the text is that of its current value and parses back to it"""
+    import mutate
+
+    f = C.filter_from_json(j)
+    try:
+        str(f)
+        if not mutate.edit_lists(f, rng):
+            return None
+        j2 = C.filter_to_json(f)
+        text = str(f)
+        want = str(C.filter_from_json(j2))
+        back = sansldap.LDAPFilter.from_string(text)
+    except BaseException:  # noqa: BLE001
+        return None      # reported by `direct`
+    if text != want or C.filter_to_json(back) != j2:
+        return {"key": None, "what": "a filter object that was printed, edited in place through its lists and printed again does not print / parse back as "
+                "its current value (text of the first use is kept)", "first_value": j, "filter": j2, "text": text, "fresh_object_text": want}
+    return None
+
+
 def run(ctx):
     rng = ctx.rng
     n = ctx.scale(3000, 200000)
@@ -99,7 +121,7 @@ def run(ctx):
             violations.append(v)
         elif j["k"] in ("and", "or", "not", "substr") and hist["fresh-results"] < ctx.scale(1500, 30000):
             hist["fresh-results"] += 1
-            v = fresh_results(j)
+            v = fresh_results(j) or reused_object(j, rng)
             if v:
                 violations.append(v)
     sub = trees[: 768] + trees[768:: max(1, len(trees) // ctx.scale(2500, 30000))]
@@ -117,7 +139,7 @@ def run(ctx):
         "distinct_nontrivial": len(shapes),
         "rule": "filter trees of all 10 kinds (depth ≤ 8, fan-out ≤ 4) with RFC-valid attribute descriptions (descriptors, numeric OIDs, options) and "
                 "values drawn from {empty, every single byte 0-255 at start/middle/end, specials at both ends, injection strings, non-UTF-8, random}; "
-                "each is printed, parsed back and compared; for trees with lists the first parse result is extended and the text parsed again; distinct = distinct tree shapes; a sample is replayed on the Lean model (toText and parse)",
+                "each is printed, parsed back and compared; for trees with lists the first parse result is extended and the text parsed again, and the object itself is printed, edited in place and printed again; distinct = distinct tree shapes; a sample is replayed on the Lean model (toText and parse)",
         "samples": [{"filter": trees[800], "text": str(C.filter_from_json(trees[800]))}],
         "histogram": dict(sorted(hist.items())),
         "requests": len(reqs),
